@@ -79,6 +79,10 @@ KINDS = {
     # the failing part replaced sys.stdout by a stream of its own, closed it, and raised before putting it back
     'stdout_closed': (['>>> import sys, io', '>>> fh_zz = io.StringIO()',
                        '>>> sys.stdout = fh_zz; fh_zz.close(); raise ValueError("FAILMARK")'], 'ValueError'),
+    # the doctest closes the very stream its output is captured in: the error is raised when the part is left, by no
+    # line of the doctest, and is a failure of that part (placed at its first line) (finding F40)
+    'capture_closed': (['>>> print("before")', 'before', '>>> import sys  # FAILMARK', '>>> sys.stdout.close()', '>>> x = 1'],
+                       'ValueError'),
     'stdout_replaced': (['>>> import sys, io', '>>> sys.stdout = io.StringIO(); raise ValueError("FAILMARK")'], 'ValueError'),
     'nameerror': (['>>> undefined_name_zz  # FAILMARK'], 'NameError'),
     'assert': (['>>> assert 1 == 2, "FAILMARK"'], 'AssertionError'),
